@@ -10,20 +10,21 @@ pub fn floor(x: i32) -> i32 {
     x & !63
 }
 
+// FreeType uses wrapping addition (ADD_LONG) for these.
 pub fn round(x: i32) -> i32 {
-    floor(x + 32)
+    floor(x.wrapping_add(32))
 }
 
 pub fn ceil(x: i32) -> i32 {
-    floor(x + 63)
+    floor(x.wrapping_add(63))
 }
 
 fn floor_pad(x: i32, n: i32) -> i32 {
-    x & !(n - 1)
+    x & !(n.wrapping_sub(1))
 }
 
 pub fn round_pad(x: i32, n: i32) -> i32 {
-    floor_pad(x + n / 2, n)
+    floor_pad(x.wrapping_add(n / 2), n)
 }
 
 #[inline(always)]
@@ -45,7 +46,10 @@ pub fn mul_div(a: i32, b: i32, c: i32) -> i32 {
 /// Fixed point multiply and divide without rounding: a * b / c
 ///
 /// Based on <https://gitlab.freedesktop.org/freetype/freetype/-/blob/57617782464411201ce7bbc93b086c1b4d7d84a5/src/base/ftcalc.c#L200>
-pub fn mul_div_no_round(mut a: i32, mut b: i32, mut c: i32) -> i32 {
+pub fn mul_div_no_round(a: i32, b: i32, c: i32) -> i32 {
+    // FreeType operates on 64-bit magnitudes here so negating i32::MIN
+    // must not overflow; the result is truncated to 32 bits.
+    let (mut a, mut b, mut c) = (a as i64, b as i64, c as i64);
     let mut s = 1;
     if a < 0 {
         a = -a;
@@ -59,13 +63,9 @@ pub fn mul_div_no_round(mut a: i32, mut b: i32, mut c: i32) -> i32 {
         c = -c;
         s = -s;
     }
-    let d = if c > 0 {
-        ((a as i64) * (b as i64)) / c as i64
-    } else {
-        0x7FFFFFFF
-    };
+    let d = if c > 0 { (a * b) / c } else { 0x7FFFFFFF };
     if s < 0 {
-        -(d as i32)
+        (-d) as i32
     } else {
         d as i32
     }
